@@ -7,7 +7,7 @@
    "Never panics or hangs" is therefore: these outcomes are not produced.  The text level
    (transition functions, contextAfterText, escapeText, isJsTemplateBalanced) is total without
    exception.  The API level is NOT: the full statement C08_api_total_full_statement is refuted
-   on the faithful model (props/C08_findings.v, findings D7 and D8); what holds of every history
+   on the faithful model (props/C08_findings.v, findings D7, D8 and D40); what holds of every history
    is stated by C08_api_nonexec_total and C08_api_no_text_loop, and the analysis panics are
    characterised exactly by C08_analysis_panics_characterised. *)
 From V Require Import lib.Base gen.GenTemplate model.GoStrings model.HtmlUnescape model.TContext model.TTransition
@@ -97,7 +97,7 @@ Print Assumptions C08_analysis_total_partial.
 Definition C08_api_total_full_statement : Prop :=
   forall ops, Forall (fun r => is_panic r = false) (snd (run ops)).
 
-(* ... is false of the faithful model (C08_refuted_break, C08_refuted_niltree in
+(* ... is false of the faithful model (C08_refuted_break, C08_refuted_niltree, C08_refuted_clone_of_replaced in
    props/C08_findings.v).  What holds of EVERY history, whatever earlier calls failed:
    New, t.New, Parse, Clone, Lookup, Templates/Name/DefinedTemplates, CSPCompatible never panic; *)
 Theorem C08_api_nonexec_total : forall ops k o r,
